@@ -13,7 +13,8 @@ from .sorts import (Sym, SInt, SBool, SBytes, SStr, SVal, SVL, SF64, Val, VL, By
 from . import ops
 from .ops import Unsupported, truth, b2v, i2v, zint, zbool, zseq, to_val, to_vl, Choice, TRUE, FALSE, is_sym
 from .specenv import SFset, SSlice, SComplex, SType, merge_values
-from .engine import (Obj, ExcObj, Raised, BoundMethod, Closure, CheckerError, ops_SymRange, State, Ret, Brk, Cont,
+from .engine import (Obj, ExcObj, Raised, BoundMethod, Closure, CheckerError, ops_SymRange, State, Ret, Brk, Cont, SArr,
+                     AnyException, AnyBaseException,
                      _simp_false, _simp_true)
 
 
@@ -156,6 +157,10 @@ class Lib(object):
             for r in self.bytesio_call(engine, st, recv, name, args, node):
                 yield r
             return
+        if isinstance(recv, Obj) and recv.kind == "dict":
+            for r in self.dict_call(engine, st, recv, name, args, kwargs, node):
+                yield r
+            return
         if isinstance(recv, Obj) and isinstance(recv.cls, str):
             ext = engine.store.externals.get("%s.%s" % (recv.cls, name))
             if ext is None:
@@ -184,6 +189,56 @@ class Lib(object):
                 yield st, Raised(type(e), ExcObj(type(e)))
             return
         raise Unsupported("method %s of %r (line %d)" % (name, recv, node.lineno))
+
+    # -- dict objects: contents are two arrays (map, has) over Val keys ---------------------------------
+    def dget(self, engine, st, d):
+        return engine.heap_get(st, d, "map").z, engine.heap_get(st, d, "has").z
+
+    def dict_call(self, engine, st, d, name, args, kwargs, node):
+        self.used.add("dict.%s (array model)" % name)
+        m, h = self.dget(engine, st, d)
+        if name == "get" and 1 <= len(args) <= 2:
+            k = to_val(args[0])
+            default = args[1] if len(args) > 1 else None
+            yield st, merge_values(z3.Select(h, k), SVal(z3.Select(m, k)), default)
+            return
+        if name == "pop" and 1 <= len(args) <= 2:
+            k = to_val(args[0])
+            present = z3.Select(h, k)
+            if len(args) == 1:
+                bad = st.fork().assume(z3.Not(present)).label("L%d:pop KeyError" % engine.rel_line(node))
+                if engine.feasible(bad):
+                    yield bad, Raised(KeyError, ExcObj(KeyError))
+                st.assume(present)
+                res = SVal(z3.Select(m, k))
+            else:
+                res = merge_values(present, SVal(z3.Select(m, k)), args[1])
+            st.heap[(d.oid, "has")] = SArr(z3.Store(h, k, False))
+            yield st, res
+            return
+        if name == "clear" and not args:
+            st.heap[(d.oid, "has")] = SArr(z3.K(Val, z3.BoolVal(False)))
+            yield st, None
+            return
+        if name == "copy" and not args:
+            o = Obj(dict, "%s.copy@L%d" % (d.name, engine.rel_line(node)), "dict")
+            st.heap[(o.oid, "map")] = SArr(m)
+            st.heap[(o.oid, "has")] = SArr(h)
+            yield st, o
+            return
+        if name == "update" and len(args) == 1 and isinstance(args[0], Obj) and args[0].kind == "dict":
+            m2, h2 = self.dget(engine, st, args[0])
+            nm = fresh("map~update", z3.ArraySort(Val, Val))
+            nh = fresh("has~update", z3.ArraySort(Val, Bool))
+            k = z3.Const("k!upd", Val)
+            # pointwise definition of the updated dict (quantified; instantiated by the solver's array theory)
+            st.assume(z3.ForAll([k], z3.Select(nh, k) == z3.Or(z3.Select(h, k), z3.Select(h2, k))))
+            st.assume(z3.ForAll([k], z3.Select(nm, k) == z3.If(z3.Select(h2, k), z3.Select(m2, k), z3.Select(m, k))))
+            st.heap[(d.oid, "map")] = SArr(nm)
+            st.heap[(d.oid, "has")] = SArr(nh)
+            yield st, None
+            return
+        raise Unsupported("dict.%s (line %d)" % (name, node.lineno))
 
     def apply_external(self, engine, st, ext, args, kwargs, node):
         """a library model given as outcomes: fork one path per outcome"""
@@ -284,7 +339,8 @@ class Lib(object):
                 yield st, self.P(engine, st, "unutf8", o)
                 return
         if isinstance(o, (SStr, SBytes)) and name == "startswith" and len(args) == 1:
-            yield st, b2v(z3.PrefixOf(zseq(args[0]), o.z))
+            a = engine.narrow(st, args[0], "str" if isinstance(o, SStr) else "bytes", node, "startswith argument")
+            yield st, b2v(z3.PrefixOf(zseq(a), o.z))
             return
         if isinstance(o, SVal) and name == "decode":
             # method lookup on a dynamic value: only bytes has .decode among the plain types
@@ -534,6 +590,9 @@ class Lib(object):
         if f is slice and len(args) == 3:
             yield st, SVal(Val.VSlice(*[to_val(a) for a in args]))
             return
+        if f is slice and len(args) == 2:
+            yield st, SVal(Val.VSlice(to_val(args[0]), to_val(args[1]), Val.VNone))
+            return
         if f is frozenset and len(args) == 1:
             for r in self.make_frozenset(engine, st, args[0], node):
                 yield r
@@ -544,6 +603,34 @@ class Lib(object):
             return
         if f is isinstance and len(args) == 2:
             yield st, self.isinstance_(args[0], args[1])
+            return
+        if f is hasattr and len(args) == 2 and (isinstance(args[0], SVal) or isinstance(args[0], SType)):
+            self.used.add("hasattr(obj, name): a pure predicate of (object, name) - assumed free of side effects")
+            nm = engine.narrow(st, args[1], "str", node, "attribute name")
+            tgt = to_val(args[0]) if isinstance(args[0], SVal) else Val.VRef(-1 - args[0].z)
+            yield st, b2v(self.spec.uf["has_attr"](tgt, zseq(nm)))
+            return
+        if f is getattr and len(args) == 3 and isinstance(args[0], SType) and isinstance(args[1], (str, SStr)):
+            self.used.add("getattr(type(obj), name, default): the class attribute or the default, no side effects")
+            yield st, SVal(self.spec.uf["class_attr"](args[0].z, zseq(args[1]), to_val(args[2])))
+            return
+        if f is str and len(args) == 2 and args[1] in ("utf8", "utf-8") and isinstance(args[0], (SVal, SBytes)):
+            b = engine.narrow(st, args[0], "bytes", node, "str(x, 'utf8') argument")
+            for r in self.call_symmethod(engine, st, SymMethod(b, "decode"), ["utf8"], {}, node):
+                yield r
+            return
+        if f is dict and len(args) == 1 and isinstance(args[0], (SVal, SVL, tuple)) and not kwargs:
+            self.used.add("dict(pairs): an opaque mapping value determined by the pairs, or TypeError/ValueError")
+            for cls in (TypeError, ValueError):
+                b = st.fork().label("L%d:dict() raises %s" % (ln, cls.__name__))
+                yield b, Raised(cls, ExcObj(cls))
+            yield st, SVal(self.spec.uf["dict_of"](to_val(args[0])))
+            return
+        if isinstance(f, SVal):
+            if kwargs:
+                raise Unsupported("keywords in a call of a dynamic value")
+            for r in self.apply_dynamic(engine, st, f, SVL(to_vl(args)), node):
+                yield r
             return
         raise Unsupported("call of %r with %r (line %d)" % (f, args, node.lineno))
 
@@ -629,6 +716,12 @@ class Lib(object):
 
     # -- subscripts ---------------------------------------------------------------------------
     def getitem(self, engine, st, o, k, node):
+        if isinstance(o, Obj) and o.kind == "dict":
+            m, h = self.dget(engine, st, o)
+            kk = to_val(k)
+            for r in engine.with_errs(st, (SVal(z3.Select(m, kk)), [(KeyError, z3.Not(z3.Select(h, kk)))]), node):
+                yield r
+            return
         if isinstance(o, (tuple, list)) and not is_sym(k):
             try:
                 yield st, o[k]
@@ -655,6 +748,12 @@ class Lib(object):
         raise Unsupported("subscript %r[%r] (line %d)" % (o, k, node.lineno))
 
     def setitem(self, engine, st, o, k, v, node):
+        if isinstance(o, Obj) and o.kind == "dict":
+            m, h = self.dget(engine, st, o)
+            kk = to_val(k)
+            st.heap[(o.oid, "map")] = SArr(z3.Store(m, kk, to_val(v)))
+            st.heap[(o.oid, "has")] = SArr(z3.Store(h, kk, True))
+            return [(st, None)]
         raise Unsupported("subscript assignment (line %d)" % node.lineno)
 
     def slice(self, engine, st, o, lo, hi, step, node):
@@ -795,7 +894,12 @@ class Lib(object):
         return res
 
     def raise_dynamic(self, engine, st, v, node):
-        raise Unsupported("raise of %r" % (v,))
+        """`raise x` for a dynamic value: x's own exception class if it is an exception (any class), TypeError
+        if it is not an exception at all"""
+        ln = engine.rel_line(node)
+        for cls in [AnyException, AnyBaseException, TypeError] + [c for c in engine.exc_universe() if c is not TypeError]:
+            b = st.fork().label("L%d:raise dynamic %s" % (ln, cls.__name__))
+            yield b, Raised(cls, ExcObj(cls, info={"dynamic": True, "value": v}))
 
     def delete(self, engine, st, t):
         raise Unsupported("del")
@@ -804,13 +908,90 @@ class Lib(object):
         raise Unsupported("with")
 
     def contains_obj(self, engine, st, coll, x, node):
+        if coll.kind == "dict":
+            m, h = self.dget(engine, st, coll)
+            return [(st, b2v(z3.Select(h, to_val(x))))]
         raise Unsupported("in on heap object")
 
     def call_with_dstar(self, engine, st, f, node):
-        raise Unsupported("**kwargs call")
+        """f(*args, **kw) with dynamic args / keywords: only for callables without a contract (apply)"""
+        plain = [a for a in node.args if not isinstance(a, ast.Starred)]
+        star = [a for a in node.args if isinstance(a, ast.Starred)]
+        dstar = [k for k in node.keywords if k.arg is None]
+        named = [k for k in node.keywords if k.arg is not None]
+        if named or len(dstar) != 1 or len(star) > 1:
+            raise Unsupported("call form with ** (line %d)" % node.lineno)
+        exprs = plain + [x.value for x in star] + [dstar[0].value]
+        for st1, vs in engine.ev_seq(st, exprs):
+            if isinstance(vs, Raised):
+                yield st1, vs
+                continue
+            args = vs[:len(plain)]
+            starval = vs[len(plain)] if star else ()
+            kw = vs[-1]
+            if not isinstance(f, SVal):
+                raise Unsupported("** call of a non-dynamic callable")
+            for st2, vl in self.star_items(engine, st1, starval, node):
+                if isinstance(vl, Raised):
+                    yield st2, vl
+                    continue
+                for a in reversed(args):
+                    vl = VL.cons(to_val(a), vl)
+                for r in self.apply_dynamic(engine, st2, f, SVL(vl), node, kwargs=to_val(kw)):
+                    yield r
+
+    def star_items(self, engine, st, v, node):
+        """the items *v contributes to a call: a tuple's items; for any other value the items its iteration
+        yields (an uninterpreted list; iterating a lent object is an operation the protocol sanctions) or
+        TypeError if it is not iterable"""
+        if isinstance(v, SVL):
+            yield st, v.z
+            return
+        if isinstance(v, (tuple, list)):
+            yield st, to_vl(v)
+            return
+        if not isinstance(v, SVal):
+            raise Unsupported("*args of %r" % (v,))
+        ln = engine.rel_line(node)
+        t = st.fork().assume(Val.is_VTuple(v.z)).label("L%d:*tuple" % ln)
+        if engine.feasible(t):
+            yield t, Val.titems(v.z)
+        o = st.fork().assume(z3.Not(Val.is_VTuple(v.z)))
+        if engine.feasible(o):
+            self.used.add("*args of a non-tuple: the items its iteration yields (uninterpreted) or TypeError")
+            bad = o.fork().label("L%d:*not iterable" % ln)
+            yield bad, Raised(TypeError, ExcObj(TypeError))
+            o.label("L%d:*iterable" % ln)
+            yield o, self.spec.uf["iter_items"](v.z)
 
     def call_star_symbolic(self, engine, st, f, args, starval, kwargs, node):
-        raise Unsupported("*args with symbolic tuple")
+        """f(a, b, *rest) where rest is symbolic: only for callables without a contract (apply)"""
+        if kwargs:
+            raise Unsupported("*args together with keywords")
+        for st1, vl in self.star_items(engine, st, starval, node):
+            if isinstance(vl, Raised):
+                yield st1, vl
+                continue
+            for a in reversed(args):
+                vl = VL.cons(to_val(a), vl)
+            for r in self.apply_dynamic(engine, st1, f, SVL(vl), node):
+                yield r
+
+    def apply_dynamic(self, engine, st, f, argvl, node, kwargs=None):
+        """call of a value about which nothing is known (uninterpreted `apply`): appends a Call event, may
+        return anything and raise anything; it does not touch the heap locations the engine tracks"""
+        self.used.add("apply: call of an unknown callable = one Call event, any result, any exception")
+        ln = engine.rel_line(node)
+        fv = to_val(f)
+        universe = [AnyException, AnyBaseException] + list(engine.exc_universe())
+        for cls in universe:
+            b = st.fork().label("L%d:call raises %s" % (ln, cls.__name__))
+            b.trace.append(("Call", fv, argvl.z, "raise", kwargs))
+            yield b, Raised(cls, ExcObj(cls, info={"dynamic": True}))
+        res = SVal(fresh("apply.result@L%d" % ln, Val))
+        engine.type_invariants(st, [res])
+        st.trace.append(("Call", fv, argvl.z, res.z, kwargs))
+        yield st, res
 
 
 class FdVal(SInt):
